@@ -481,6 +481,32 @@ func (w *World) Apply(op Op) (v *Violation) {
 		}
 		w.Pins[op.N] = append(w.Pins[op.N], ex)
 		w.Labels["pin"] = true
+	case "reload":
+		// LoadVersion on the LIVE handle (same tree object, same node cache): the working tree is replaced by the
+		// target version, uncommitted changes are dropped
+		lv, err := t.LoadVersion(op.N)
+		if err != nil || lv != w.Latest {
+			return w.viol("reload.err", "LoadVersion(%d) on the live handle = %d,%v want %d,nil (retained %v)", op.N, lv, err, w.Latest, w.Retained())
+		}
+		target := op.N
+		if target == 0 {
+			target = w.Latest
+		}
+		if target != w.Latest {
+			w.Labels["reopen_old"] = true
+		}
+		w.Labels["reload_live_handle"] = true
+		w.Cur = target
+		w.setWorkingFrom(target)
+		if !w.Cfg.SkipFast {
+			w.EverFast = true
+		}
+	case "reload_invalid":
+		// a target outside the retained range: must fail and leave the tree (incl. its uncommitted changes) as it was
+		if _, err := t.LoadVersion(op.N); err == nil {
+			return w.viol("reload.invalid_accepted", "LoadVersion(%d) on the live handle succeeded, retained %v", op.N, w.Retained())
+		}
+		w.Labels["reload_invalid"] = true
 	case "hold":
 		it, err := t.GetImmutable(op.N)
 		if err != nil {
